@@ -27,6 +27,20 @@ from hail.utils import Interval, Struct  # noqa: E402
 from hailtop.frozendict import frozendict  # noqa: E402
 from hailtop.hail_frozenlist import frozenlist  # noqa: E402
 
+
+
+def _type_hash(self):
+    """stub for HailType.__hash__ (43 + hash(str(self))): CrossHair makes hash(str) a symbolic integer, which the real
+    code then trips over (`element_type in _numeric_types`); a deterministic checksum of the same string keeps the
+    hash/eq contract"""
+    h = 43
+    for ch in str(self):
+        h = (h * 31 + ord(ch)) % (2 ** 61 - 1)
+    return h
+
+
+T.HailType.__hash__ = _type_hash
+
 try:
     RG = _m.J.Env.backend().get_reference('C32rg')
 except KeyError:
